@@ -155,6 +155,23 @@ def corpus(features=()):
     out.append(dict(name="world_with_rc_component_moved_to_thread", family="trait",
                     bad=rc_prelude + "fn main() { let world = EcsWorld::new(); std::thread::spawn(move || { let _ = world.arch_foo.len(); }); }\n",
                     good=PRELUDE + "fn main() { let world = EcsWorld::new(); std::thread::spawn(move || { let _ = world.arch_foo.len(); }); }\n"))
+    # components whose Send-ness and Sync-ness DIFFER: a world is Send exactly when its components are Send (their
+    # Sync-ness is irrelevant), and never Sync
+    cell_prelude = PRELUDE.replace("pub struct CompB(pub u32);", "pub struct CompB(pub std::cell::Cell<u32>);")            # Send, !Sync
+    guard_prelude = PRELUDE.replace("pub struct CompB(pub u32);", "pub struct CompB(pub std::sync::MutexGuard<'static, u32>);")  # Sync, !Send
+    uses_world = "fn main() { let world = EcsWorld::new(); let _ = world.arch_foo.len(); }\n"
+    moved = "fn main() { let world = EcsWorld::new(); std::thread::spawn(move || { let _ = world.arch_foo.len(); }).join().unwrap(); }\n"
+    for ty in ("EcsWorld", "ArchFoo"):
+        out.append(dict(name="send_not_sync_component__%s_is_send_not_sync" % ty, family="trait",
+                        bad=cell_prelude + helper + "fn main() { need_sync::<%s>(); }\n" % ty,
+                        good=cell_prelude + helper + "fn main() { need_send::<%s>(); }\n" % ty))
+        out.append(dict(name="sync_not_send_component__%s_is_not_send" % ty, family="trait",
+                        bad=guard_prelude + helper + "fn main() { need_send::<%s>(); }\n" % ty,
+                        good=guard_prelude + uses_world))
+        out.append(dict(name="sync_not_send_component__%s_is_not_sync" % ty, family="trait",
+                        bad=guard_prelude + helper + "fn main() { need_sync::<%s>(); }\n" % ty,
+                        good=guard_prelude + uses_world))
+    out.append(dict(name="world_moved_to_thread__send_not_sync_vs_sync_not_send_component", family="trait", bad=guard_prelude + moved, good=cell_prelude + moved))
     # handles are Copy + Send + Sync whatever the components are: must compile (paired with the world itself not being Send)
     out.append(dict(name="handles_are_copy_send_sync", family="trait",
                     bad=rc_prelude + helper + "fn main() { need_css::<EcsWorld>(); }\n",
